@@ -192,26 +192,8 @@ def queries(tier, seed):
 
 
 def motions(tier, seed):
-    """SE(3) generator set; the thorough set contains the quick set of every seed"""
-    if tier == 'quick':
-        return alph.gen_SE(3, tier, seed)
-    out = list(alph.gen_SE(3, tier, seed))
-    have = set(n for n, _ in out)
-    rots = dict(alph.gen_SO3(tier, seed))
-    trs = dict(alph.translations(3, tier, seed))
-    want = []
-    for n, _ in alph.gen_SE(3, 'quick', 0):
-        rn, tn = n.split('|t=')
-        if rn.startswith('rod(g'):
-            want += ['%s|t=%s' % (r, tn) for r in rots if r.startswith('rod(g')]
-        else:
-            want.append(n)
-    for n in want:
-        if n not in have:
-            rn, tn = n.split('|t=')
-            out.append((n, ref.rt(rots[rn], trs[tn])))
-            have.add(n)
-    return out
+    """SE(3) generator set (name-thinned in alph: the quick set of every seed is inside the thorough set)"""
+    return alph.gen_SE(3, tier, seed)
 
 
 PSI = [('0', 0.0), ('0.7', 0.7), ('pi/2-1e-2', PI / 2 - 1e-2)]
@@ -239,7 +221,7 @@ class LineDesc:
 
     def params(self):
         return {'ctor': self.ctor, 'form': self.form, 'phi': self.phi, 'pt': self.pt, 'mag': self.mag,
-                'dir': self.dir, 'len': self.len}
+                'dir': self.dir, 'len': self.len, 'rel': '-'}
 
     def base(self):
         c = self.ctor if self.ctor != 'Planes' else 'Planes:%s:%s' % (self.form, self.phi)
@@ -808,9 +790,9 @@ def fam_pairs(ctx, ld, L1):
                                  'data magnitude %.3g)' % (meth, got, rel if prm['sign'] == '+' else rel + ' reversed', ld.ctor, f3(ld.pref), f3(ld.d),
                                                            ' '.join(f3(a) if isinstance(a, np.ndarray) else a for a in args), dref, M))
                     ctx.cell(site, rel, prm['sign'], got)
-                    if meth == 'xor' and rel == 'intersecting' and got:
+                    if meth == 'xor' and (rel == 'skew' or got) and rel in ('skew', 'intersecting') and prm['off'] == '0':
                         ok, val = call(A.intersects, B)
-                        ctx.note('intersects() of truly intersecting lines', 'raises %r' % (val,) if not ok else
+                        ctx.note('intersects() of %s lines (outside the statement, not judged)' % rel, 'raises %r' % (val,) if not ok else
                                  ('returns %s of shape %s' % (type(val).__name__, getattr(val, 'shape', None))))
                 elif meth == 'distance':
                     ok, val = call(A.distance, B)
@@ -959,7 +941,9 @@ def run_shard(ctx, shard):
     # pair-family lines are much heavier than the others: deal both kinds round-robin separately
     heavy = [l for l in letters if l[-1]]
     light = [l for l in letters if not l[-1]]
-    for l in heavy[k::n] + light[k::n]:
+    # (i + i // n) % n instead of i % n: the letter product has a period that is a multiple of n
+    mine = [l for part in (heavy, light) for i, l in enumerate(part) if (i + i // n) % n == k]
+    for l in mine:
         ld = make_desc(*l[:-1])
         if ld is None:
             ctx.count('dropped_out_of_domain_lines')
